@@ -30,6 +30,8 @@ def cases(tier, seed, ctx=None):
             ops.append([0, rng.choice([0o000, 0o022, 0o027, 0o077]), 1 if rng.chance(1, 3) else 0])
             for _ in range(rng.range(0, 4)):
                 k = rng.below(3)
+                if rng.chance(1, 8):
+                    ops.append([5, rng.choice([b"other-app", b"hxverif", b"x"])])      # the application is renamed while the instance lives
                 if k == 0:
                     d = [[rng.choice(KEYS), rng.choice(VALS)] for _ in range(rng.range(0, 3))]
                     ops.append([1, d])
